@@ -68,10 +68,10 @@ func Drive[C any](t *testing.T, rec *evid.Recorder, journal bool,
 			rec.Sample(c)
 		}
 		rec.MaybeFlush()
-		if strings.HasPrefix(out.Sig, "client-spin") || strings.HasPrefix(out.Sig, "bubble-frozen") {
+		if strings.HasPrefix(out.Sig, "client-spin") || strings.HasPrefix(out.Sig, "client-stuck") || strings.HasPrefix(out.Sig, "bubble-frozen") {
 			// the stuck goroutines of that bubble are still around (and possibly burning a
 			// core): record and leave the process; no shrinking
-			if strings.HasPrefix(out.Sig, "client-spin") {
+			if !strings.HasPrefix(out.Sig, "bubble-frozen") {
 				rec.Fail(out.Sig, out.Msg, c)
 			}
 			rec.Flush()
